@@ -248,6 +248,20 @@ Definition spec_delivery (c : pcase) : bool :=
   | _, _ => false
   end.
 
+(* C03 on the remote path: the priority (hence the mailbox queue RouteSend* selects at the receiver) of every
+   delivered message / request is the one the sender used, per (route, sender, addressee); the frame carries it in
+   the low bits of the byte that also holds the important-delivery flag *)
+Definition prio_call (k : call) : call :=
+  mk_call (c_route k) (c_from k) (c_to k) [] (0, 0, 0) (c_prio k) (0, 0, 0) 0 [].
+
+Definition spec_priority (c : pcase) : bool :=
+  match expected_calls_b c, expected_calls_a c with
+  | Some eb, Some ea =>
+      perm_eqb call_eqb (map prio_call eb) (map (fun o => prio_call (call_of_ocall c true o)) (p_calls_b c)) &&
+      perm_eqb call_eqb (map prio_call ea) (map (fun o => prio_call (call_of_ocall c false o)) (p_calls_a c))
+  | _, _ => false
+  end.
+
 (* refused only beyond the limit, accepted only within it; a refused message leaves no byte *)
 Definition spec_limit (c : pcase) : bool :=
   let tab := ztab c in
